@@ -1993,8 +1993,8 @@ xact_t * instance_t::parse_xact(char *          line,
       reveal_context = false;
 
       if (!last_post) {
-        if (xact->has_tag(_("UUID"))) {
-          string uuid = xact->get_tag(_("UUID"))->to_string();
+        if (optional<value_t> uuid_tag = xact->get_tag(_("UUID"))) {
+          string uuid = uuid_tag->to_string();
           foreach (payee_uuid_mapping_t value, context.journal->payee_uuid_mappings) {
             if (value.first.compare(uuid) == 0) {
               xact->payee = value.second;
